@@ -57,7 +57,8 @@ def run(ctx):
     ctx.assume('oracle: truth x exact-rational binned response; rtol 1e-9 (float64 packages) / 1e-5 (float32 storage)',
                'the cube format requires the parameter table in cube order (convolve_model_dir refuses otherwise)',
                'fits are compared with the numeric reference (C01/C02) per variant, which is what "agree" means up to the float32 memmap bound')
-    ctx.require_events('file:checked', 'twin:compared', 'fit:checked')     # (the sort_to_match probe is an extra observation point, not a required route)
+    ctx.require_events('file:checked', 'twin:compared', 'fit:checked', 'history:listing-made-before-adding-a-filter',
+                       'file:checked:filter-added-after-listing', 'file:checked:table-rewritten-then-overwrite')     # (the sort_to_match probe is an extra observation point, not a required route)
     ctx.require_regimes('gz', 'subdir', 'mixed-order', 'cube:desc', 'cube:asc', 'f32', 'n_ap>1', 'n_ap=1', 'memmap:on', 'memmap:off', 'filters>1', 'filters-used-before', 'names:long', 'cube-unit:Jy', 'apertures:not-in-AU', 'fitters:several-alive', 'cube:table-order-differs-from-cube')
     n_pkg = 7 if ctx.quick else 120
     for ip in range(n_pkg):
@@ -324,6 +325,68 @@ def run(ctx):
                     else:
                         fitcheck.check_fit3d(ctx, tr, valid, flux, err, info, wit, keyp='fit-from-%s' % style)
                     ctx.event('fit:checked')
+        # history on the same two packages, in the same process: a result is listed first (the post-processing step reads the
+        # package's parameter table), then one more filter is convolved into each package, then the per-file package's parameter
+        # table is rewritten in another row order and the filter convolved again (overwrite=True): every file written must follow
+        # the table / cube order the package has *at that moment*, and hold in each row the flux of the SED it is labelled with
+        if n_m >= 2:
+            fwx, respx, centralx, _ = convcheck.make_filter_arrays(rng, truth.wav, kind='inside')
+            fx = convcheck.build_filter('TX', fwx, respx, centralx, descending_nu=bool(rng.random() < 0.5))
+            fx_before = _copy.deepcopy(fx)
+            order_b = list(rng.permutation(n_m))
+            if order_b == list(order):
+                order_b = order_b[::-1]
+            try:
+                from sedfitter import write_parameters
+                lw_, lc_ = gen.make_law_arrays(rng, n=20, lo=0.04, hi=3000.0)
+                for d in (d1, d2):
+                    th_ = np.ones(nfil) if n_ap == 1 else np.full(nfil, float(truth.apertures[-1]) / 1000.0)
+                    ft_ = gen.make_fitter([f.name for f in filters], th_, d, gen.build_law(lw_, lc_), (0.0, 10.0), (1.0, 2.0), use_memmap=False)
+                    info_ = ft_.fit(gen.build_source('lst', [1] * nfil, [1.0] * nfil, [0.1] * nfil))
+                    write_parameters(info_, os.path.join(d, 'listing.txt'), select_format=('N', 1))
+                ctx.event('history:listing-made-before-adding-a-filter')
+            except Exception:
+                ctx.event('history:listing-not-available')
+
+            def check_added(style, d, expect_rows, key):
+                wit = dict(wit0, style=style, filter='TX', history=key)
+                ref_f, ref_e, R = convcheck.reference_convolution(t1 if style == 'v1' else truth, fx_before)
+                try:
+                    g = convcheck.read_convolved_plain(os.path.join(d, 'convolved', 'TX.fits'))
+                except Exception as exc:
+                    ctx.raised(exc, 'file-unreadable:%s:%s' % (style, key), 'convolved file cannot be read: %r' % (exc,), wit)
+                    return
+                ctx.event('file:checked:' + key)
+                if g['names'] != expect_rows:
+                    ctx.violation('rows-not-in-package-order:%s:%s' % (style, key), 'rows do not follow the parameter-table / cube order the package has when it is convolved',
+                                  dict(wit, rows=g['names'], expected=expect_rows))
+                    return
+                rows = [truth.index(n) for n in g['names']]
+                tolf = rt * np.abs(ref_f[rows]) + (1e-12 if not f32 else 1e-7) * np.sum(np.abs(truth.flux[rows][:, :, ::-1] * R), axis=2)
+                if f32:
+                    tolf = tolf + convcheck.float32_edge_tolerance(truth, fx_before)[0][rows]
+                if g['flux'].shape != (n_m, n_ap) or np.any(np.abs(g['flux'] - ref_f[rows]) > tolf):
+                    ctx.violation('row-flux-wrong:%s:%s' % (style, key), 'the row labelled X does not hold the flux computed from SED X',
+                                  dict(wit, row0=g['names'][0], got=g['flux'][0], expected=ref_f[rows][0]))
+
+            for style, d in (('v1', d1), ('v2', d2)):
+                try:
+                    convolve_model_dir(d, [fx])
+                except Exception as exc:
+                    ctx.raised(exc, 'convolve-raised:filter-added-after-listing:' + style, 'convolve_model_dir raised when one more filter was added: %r' % (exc,),
+                               dict(wit0, style=style))
+                    continue
+                check_added(style, d, [names[i] for i in order] if style == 'v1' else list(names), 'filter-added-after-listing')
+            for fn_ in os.listdir(d1):
+                if fn_.startswith('parameters.fits'):
+                    os.remove(os.path.join(d1, fn_))
+            pkg.write_parameters(d1, [names[i] for i in order_b], {c_: np.asarray(v_)[order_b] for c_, v_ in truth.params.items()})
+            try:
+                convolve_model_dir(d1, [fx], overwrite=True)
+            except Exception as exc:
+                ctx.raised(exc, 'convolve-raised:table-rewritten:v1', 'convolve_model_dir raised after the parameter table was rewritten in another order: %r' % (exc,), wit0)
+            else:
+                check_added('v1', d1, [names[i] for i in order_b], 'table-rewritten-then-overwrite')
         ctx.rmdir(d1)
         ctx.rmdir(d2)
 
